@@ -1,7 +1,7 @@
 (* Extraction of the executable model (and, later, of the specs) to OCaml for the
    correspondence check.  ExtrOcamlBasic only: bool, option, unit, list, prod, sumbool,
    sumor map to the OCaml types; Z, N, positive, nat stay the extracted inductives. *)
-From DTR Require Import Prelude I64 Ast FramedMap Lexer Parser Bind Eval Stmt Iter Script Xml Dig XCheck.
+From DTR Require Import Prelude I64 Ast FramedMap Lexer Parser Bind Eval Stmt Iter Script Xml Dig XCheck Show.
 Require Extraction.
 Require Import ExtrOcamlBasic.
 Extraction Language OCaml.
@@ -10,4 +10,4 @@ Extraction "../ocaml/extracted/model.ml"
   parse parse_header lex_body hlex_one with_signals try_new inext script_driver static_driver
   ctx_vars failing_outputs or_check or_is_checked signal_eqb text_bytes
   wrap64 mask_value binop_eval unop_eval
-  dig_parse load_test load_test_by_name xcheck.
+  dig_parse load_test load_test_by_name xcheck show_prog.
